@@ -8,6 +8,8 @@ and every spurious wake-up.  Helper lemmas and the inductive invariants are in P
 of the counter word comes from Extracted/PoolConsts.lean (regenerated from the source on every run).
 -/
 import YaclibModel.Proofs.PoolBlocked
+import YaclibModel.Proofs.PoolExecContract
+import YaclibModel.Proofs.StrandTowerN
 import YaclibModel.Extracted.Kernels
 import YaclibModel.Model.Skeletons
 
@@ -393,6 +395,60 @@ theorem no_idle_worker_with_queued_job (h : Reachable w s) (hq : PoolAtRest s) :
     rw [hr.2.1, hr.2.2] at this
     exact List.eq_nil_of_length_eq_zero (by omega)
   · exact Or.inr hp
+
+/-! ### the pool as a base executor for strands (composition with C07)
+
+`poolExec n stop spur` (Proofs/PoolExec.lean) is the pool model as an *open* executor in the sense of
+Proofs/StrandTower.lean: clients may call `Submit` with any fresh job at any time (Submit streams are created on
+demand — the model is monotone in its workload, Proofs/PoolExt.lean), job bodies belong to the client (a body returns
+when the client says so, and only then does the worker go on to `lock.lock()`).  Interface events: `sub a` = `Submit(a)`
+is called, `call a` / `ret a` = the body is entered / returns, `drop a` = `a.Drop()` by the rejecting Submit or by
+HardStop; every other step of the model (lock, unlock, notify, wake-up, the stopper's own steps, Wait) is invisible. -/
+
+/-- **the FairThreadPool honours the IExecutor contract** (`Strand.ExecContract`), for every number of workers
+    n ≥ 1, whichever of Stop / SoftStop / HardStop is called (or none) at whatever moment, with or without spurious
+    wake-ups: it Calls / Drops only pending jobs; `Submit` can always be called and a body can always return; when
+    the pool has nothing left to do and no body is running, no submitted job is pending. -/
+theorem pool_honours_contract {n : Nat} (hn : 0 < n) (stop : Option StopKind) (spur : Bool) :
+    Strand.ExecContract (poolExec n stop spur) := pool_contract hn stop spur
+
+/-- the interface state of the open pool is a function of its state (`absP`), i.e. the events are the only way the
+    clients' view changes: every non-event step of the pool is invisible -/
+theorem pool_interface_state {n : Nat} {stop : Option StopKind} {spur : Bool} {x : (poolExec n stop spur).σ}
+    {p : Strand.Prot} (h : (poolExec n stop spur).Run x p) : p = absP x ∧ Reachable (wN n stop x.m.subs.length) x.m :=
+  ⟨run_abs h, (pxinv_reach h.reach).reach⟩
+
+/-- **strands stacked on a FairThreadPool**: a tower of strands of any height over the pool honours the contract … -/
+theorem tower_over_pool {n : Nat} (hn : 0 < n) (stop : Option StopKind) (spur : Bool) (k : Nat) :
+    Strand.ExecContract (Strand.tower (poolExec n stop spur) k) :=
+  Strand.tower_satisfies_contract (pool_contract hn stop spur) k
+
+/-- … and nothing is lost in it: when no thread of the whole system (clients with any workload, the strands of every
+    level, the pool's workers, submitting threads and stopper) can take a step, every client has returned from its last
+    Submit, the top strand is idle, and every strand below is idle with every job handed to it Called or Dropped -/
+theorem tower_over_pool_nothing_lost {n : Nat} (hn : 0 < n) (stop : Option StopKind) (spur : Bool) {w : Strand.Workload}
+    {k : Nat} {s : (Strand.towerTop w (poolExec n stop spur) k).σ}
+    (hr : (Strand.towerTop w (poolExec n stop spur) k).Reach s)
+    (hq : ∀ l s', ¬ (Strand.towerTop w (poolExec n stop spur) k).step s l s') :
+    Strand.LevelDone s.1 ∧ (∀ i, s.1.sidx i = Strand.jobsOf w i) ∧
+    ∀ v ∈ Strand.levels (poolExec n stop spur) k s.2.1, Strand.LevelDone v :=
+  Strand.top_quiescent (pool_contract hn stop spur) hr hq
+
+/-- non-vacuity: the open pool (one worker, Stop possible) takes a job through Submit → push → pop → Call → return;
+    the client's view goes fresh → pending → calling → finished -/
+example : ∃ (x : (poolExec 1 (some .stop) false).σ) (p : Strand.Prot), (poolExec 1 (some .stop) false).Run x p ∧
+    p 0 = .finished ∧ p 1 = .fresh ∧ x.m.started = [⟨0, 0⟩] ∧ x.inBody = [] := by
+  have h0 : (poolExec 1 (some .stop) false).Run _ _ := Strand.Exec.Run.init
+  have h1 := Strand.Exec.Run.inp h0 (PStep.m 1 (next_sound (l := .submit 0 ⟨0, 0⟩) rfl) trivial (fun _ => rfl)) rfl rfl rfl
+  have h2 := Strand.Exec.Run.tau h1 (PStep.m 0 (next_sound (l := .lock (.sub 0)) rfl) trivial (fun _ => rfl)) rfl
+  have h3 := Strand.Exec.Run.tau h2 (PStep.m 0 (next_sound (l := .unlock (.sub 0)) rfl) trivial (fun _ => rfl)) rfl
+  have h4 := Strand.Exec.Run.tau h3 (PStep.m 0 (next_sound (l := .notifyOne 0 none) rfl) trivial (fun _ => rfl)) rfl
+  have h5 := Strand.Exec.Run.tau h4 (PStep.m 0 (next_sound (l := .lock (.worker 0)) rfl)
+    (fun _ a => List.not_mem_nil) (fun _ => rfl)) rfl
+  have h6 := Strand.Exec.Run.tau h5 (PStep.m 0 (next_sound (l := .unlock (.worker 0)) rfl) trivial (fun _ => rfl)) rfl
+  have h7 := Strand.Exec.Run.out h6 (PStep.m 0 (next_sound (l := .call 0 ⟨0, 0⟩) rfl) trivial (fun _ => rfl)) rfl rfl
+  have h8 := Strand.Exec.Run.inp h7 (PStep.ret (i := 0) (a := 0) (List.mem_singleton.mpr rfl)) rfl rfl rfl
+  exact ⟨_, _, h8, rfl, rfl, rfl, rfl⟩
 
 /-- everything the trace validator accepts is a behaviour the theorems speak about -/
 theorem validator_sound {l : Label} {s' : State} (h : Reachable w s) (hn : next s l = some s') : Reachable w s' :=
